@@ -44,6 +44,9 @@ pub enum Case {
     /// (all-lower-case program, the same program with every occurrence of the variable name in
     /// its own letter case): same values line by line
     VarProgram(String, String),
+    /// (one-blank rendering, the same tokens with other gaps - possibly none - around operators and
+    /// parentheses): same last slot, in both directions (an error on one side only is a difference)
+    Spacing(String, String),
     /// (language, lower-case line, re-cased line): same value
     LangLine(String, String, String),
 }
@@ -236,6 +239,50 @@ impl Prop for C16 {
             },
         ));
         f.push(Family::new(
+            "operator-gaps",
+            Mode::Full,
+            "lines whose token boundaries are unambiguous without blanks (an operator or a parenthesis on one side): '10 / foo + 2', '$25 / hour * 14', 'x = 100 / x / item', '2 * ( 3 + 4 ) - 5', '200 - 10%', '15% / foo', '1024 / 8 / 2', '3 km + 2 km', '12,5 usd * 2', '( 1 + 2 ) * ( 3 + 4 )', 'x = 7 / x * 2 / y' ... with every boundary independently written with 0, 1 or 2 blanks: the same last slot as the one-blank rendering (a value on one side and an error on the other is a difference)",
+            move |ch| {
+                let lines: [&[&str]; 14] = [
+                    &["10", "/", "foo", "+", "2"],
+                    &["$25", "/", "hour", "*", "14"],
+                    &["x = 100\nx", "/", "item"],
+                    &["2", "*", "(", "3", "+", "4", ")", "-", "5"],
+                    &["200", "-", "10%"],
+                    &["15%", "/", "foo"],
+                    &["1024", "/", "8", "/", "2"],
+                    &["3 km", "+", "2 km"],
+                    &["12,5 usd", "*", "2"],
+                    &["(", "1", "+", "2", ")", "*", "(", "3", "+", "4", ")"],
+                    &["x = 7\nx", "*", "2", "/", "y"],
+                    &["$1k", "/", "4", "+", "$2"],
+                    &["8", "/", "2", "*", "3"],
+                    &["120 usd", "/", "month", "*", "12"],
+                ];
+                let ts = *ch.pick(&lines);
+                let mut spaced = String::new();
+                let mut other = String::new();
+                let mut same = true;
+                for (i, t) in ts.iter().enumerate() {
+                    if i > 0 {
+                        let g = ch.choose(3);
+                        // '- 5' and '-5' are different things only for a sign: never glue '-' or '+' to a following literal
+                        let sign_risk = (ts[i - 1] == "-" || ts[i - 1] == "+") && g == 0;
+                        let g = if sign_risk { 1 } else { g };
+                        same &= g == 1;
+                        spaced.push(' ');
+                        other.push_str(&" ".repeat(g));
+                    }
+                    spaced.push_str(t);
+                    other.push_str(t);
+                }
+                if same {
+                    return None;
+                }
+                Some(Case::Spacing(spaced, other))
+            },
+        ));
+        f.push(Family::new(
             "variable-case-programs",
             Mode::Full,
             "programs that bind, re-bind and use one name ('total', 'monthly rent'): 'N = 10 / N = 20 / N + 1', 'N = 1 / N = N + 1 / N * 10', 'N = 5 / x = N * 2 / N = 7 / x + N', every occurrence of the name independently in lower, UPPER or Capitalised case (also the binding occurrences): same values as the all-lower-case program",
@@ -292,6 +339,36 @@ impl Prop for C16 {
                     Run::Done(o) => {
                         if o.slots.len() != 1 || o.slots[0] != Slot::Empty {
                             v.violation = Some("a line of blanks and/or a comment does not evaluate to nothing".into());
+                        }
+                    }
+                }
+                v
+            }
+            Case::Spacing(original, rewritten) => {
+                let a = obs::eval(calc, "en", original);
+                let b = obs::eval(calc, "en", rewritten);
+                let mut v = Verdict { input: rewritten.replace('\n', " \\n "), class: "rewrite-compared", compared: true, expected: format!("{} -> {}", original.replace('\n', " \\n "), a.brief()), observed: b.brief(), evals: 2, ..Default::default() };
+                let last = |r: &Run| match r {
+                    Run::Done(o) => o.slots.last().cloned(),
+                    _ => None,
+                };
+                if let Run::Panic(p) = &b {
+                    v.site = Some(p.site.clone());
+                    v.violation = Some(format!("panic: {}", p.message));
+                } else if let Run::Panic(p) = &a {
+                    v.site = Some(p.site.clone());
+                    v.violation = Some(format!("panic: {}", p.message));
+                } else {
+                    match (last(&a), last(&b)) {
+                        (Some(Slot::Ok { val: va, .. }), Some(Slot::Ok { val: vb, .. })) => {
+                            if !obs::val_close(&va, &vb, 1e-12) {
+                                v.violation = Some("the number of blanks around an operator changed the value".into());
+                            }
+                        }
+                        (Some(Slot::Ok { .. }), _) | (_, Some(Slot::Ok { .. })) => v.violation = Some("the number of blanks around an operator decides whether the line evaluates".into()),
+                        _ => {
+                            v.class = "not-evaluable";
+                            v.compared = false;
                         }
                     }
                 }
